@@ -271,6 +271,34 @@ fn run_case(idx: usize, line: &str, dir: &str, out: &mut Out) {
     out.line(&format!("CASE {}", idx));
     out.line(&format!("SPEC {}", line));
     let mut ids = repoint_std(dir, idx);
+    // tty=<digits>: these standard descriptors of the caller are a terminal (the slave side of a fresh pty)
+    let mut _pty_master: Option<File> = None;
+    if !spec.get("tty").is_empty() && spec.get("tty") != "-" {
+        unsafe {
+            let m = libc::posix_openpt(libc::O_RDWR | libc::O_NOCTTY);
+            if m >= 0 && libc::grantpt(m) == 0 && libc::unlockpt(m) == 0 {
+                let mut name = [0 as libc::c_char; 128];
+                if libc::ptsname_r(m, name.as_mut_ptr(), name.len()) == 0 {
+                    let sfd = libc::open(name.as_ptr(), libc::O_RDWR | libc::O_NOCTTY);
+                    if sfd >= 0 {
+                        for ch in spec.get("tty").chars() {
+                            if let Some(d) = ch.to_digit(3) {
+                                libc::dup2(sfd, d as c_int);
+                                for e in ids.iter_mut() {
+                                    if e.0 == format!("p{}", d) {
+                                        e.1 = ident(d as c_int);
+                                    }
+                                }
+                            }
+                        }
+                        libc::syscall(libc::SYS_close, sfd as libc::c_long);
+                    }
+                }
+                _pty_master = Some(File::from_raw_fd(libc::fcntl(m, libc::F_DUPFD_CLOEXEC, 210)));
+                libc::syscall(libc::SYS_close, m as libc::c_long);
+            }
+        }
+    }
     let spec_text = format!("{} {} {}", spec.get("in"), spec.get("out"), spec.get("err"));
     let mut obj = make_objects(dir, &spec_text);
     ids.extend(obj.idents.clone());
